@@ -1,6 +1,7 @@
 /- driver glue for the file-format model: `ff <op> ...` -/
 import Libvna.Model.FileFmt
 import Libvna.Model.TsOption
+import Libvna.Model.NpdScan
 import Libvna.Model.Scalar
 
 namespace Libvna.Drv
@@ -58,6 +59,34 @@ def stepFF (args : List String) : String :=
     match Libvna.TsOpt.parse decNum? 50.0 (toks.filter (· ≠ "")) with
     | some o => s!"ok {o.mult} {o.param.toLower} {o.fmt} {Libvna.floatToHex o.r}"
     | none => "fail"
+  | _ => "bad-op"
+
+def hexNib? (c : Char) : Option Nat :=
+  if '0' ≤ c ∧ c ≤ '9' then some (c.toNat - '0'.toNat)
+  else if 'a' ≤ c ∧ c ≤ 'f' then some (c.toNat - 'a'.toNat + 10)
+  else if 'A' ≤ c ∧ c ≤ 'F' then some (c.toNat - 'A'.toNat + 10) else none
+
+def hexBytes? : List Char → Option (List Nat)
+  | [] => some []
+  | a :: b :: t => match hexNib? a, hexNib? b, hexBytes? t with
+    | some x, some y, some r => some ((16 * x + y) :: r)
+    | _, _, _ => none
+  | _ => none
+
+def stepNpd (args : List String) : String :=
+  match args with
+  | ["scan", hx] =>
+    let cs := if hx.startsWith "x" then (hx.drop 1).toString.toList else hx.toList
+    match hexBytes? cs with
+    | some bytes =>
+      -- the loader's data line is followed by a newline and the end of the file
+      let r := Libvna.Npd.scanLine (bytes ++ [10])
+      let k := match Libvna.Npd.kindOf r with | .eof => "eof" | .keyword => "keyword" | .data => "data"
+      s!"ok {k} {r.fields.length}"
+    | none => "bad-args"
+  | ["scan"] =>
+    let r := Libvna.Npd.scanLine [10]
+    s!"ok eof {r.fields.length}"
   | _ => "bad-op"
 
 end Libvna.Drv
